@@ -1,13 +1,17 @@
 #!/bin/bash
-# build_model.sh <id-lowercase e.g. c11>: extract coq/extract/Extract<ID>.v and
-# build build/bin/model_<id> from ocaml/common.ml + ocaml/<id>.ml + ocaml/tail.ml
+# build_model.sh <id e.g. c11> [coqdir] [workspace]: extract <coqdir>/extract/Extract<ID>.v
+# and build <ws>/bin/model_<id> from ocaml/common.ml + ocaml/<id>.ml + ocaml/tail.ml
 set -e
 id=$1
 ID=$(echo "$id" | tr a-z A-Z)
 V=/verif
-d=$V/build/ocaml/$id
-mkdir -p "$d" "$V/build/bin"
+COQ=${2:-$V/coq}
+WS=${3:-$V/build/main}
+d=$WS/ocaml/$id
+mkdir -p "$d" "$WS/bin"
 cd "$d"
-timeout 900 coqc -Q $V/coq Tink $V/coq/extract/Extract$ID.v > extract.log 2>&1 || { cat extract.log; exit 1; }
+timeout 1500 coqc -Q $COQ Tink $COQ/extract/Extract$ID.v > extract.log 2>&1 || { cat extract.log; exit 1; }
 { echo "open M"; cat $V/ocaml/common.ml $V/ocaml/$id.ml $V/ocaml/tail.ml; } > drv.ml
-ocamlfind ocamlopt -w -a -package unix -linkpkg m.mli m.ml drv.ml -o $V/build/bin/model_$id > ocaml.log 2>&1 || { cat ocaml.log; exit 1; }
+ocamlfind ocamlopt -O3 -w -a -package unix -linkpkg m.mli m.ml drv.ml -o $WS/bin/.model_$id.$$ > ocaml.log 2>&1 || \
+ocamlfind ocamlopt -w -a -package unix -linkpkg m.mli m.ml drv.ml -o $WS/bin/.model_$id.$$ > ocaml.log 2>&1 || { cat ocaml.log; exit 1; }
+mv $WS/bin/.model_$id.$$ $WS/bin/model_$id
